@@ -58,10 +58,17 @@ end
 
 /-! ### the position word (compiler.go `newPos`, `pos.info`) -/
 
-/-- four 16-bit fields in a 64-bit word: file-name index, function-name index, line, column; line and
-    column saturate at 65535 -/
-def newPos (fi gi line col : Nat) : Nat :=
+/-- the packing itself: four 16-bit fields in a 64-bit word (file-name index, function-name index,
+    line, column); line and column saturate at 65535 -/
+def packPos (fi gi line col : Nat) : Nat :=
   (fi <<< 48) ||| (gi <<< 32) ||| ((min line 0xffff) <<< 16) ||| (min col 0xffff)
+
+/-- a name index past the end of the 16-bit name table becomes 0, the entry that names nothing -/
+def satIdx (i : Nat) : Nat := if i > 0xffff then 0 else i
+
+/-- `newPos`: the indices come from the position-name table (index 0 is the empty name) and are
+    saturated before they are packed -/
+def newPos (fi gi line col : Nat) : Nat := packPos (satIdx fi) (satIdx gi) line col
 
 /-- `pos.info`: the four fields read back -/
 def posInfo (p : Nat) : Nat × Nat × Nat × Nat :=
